@@ -23,7 +23,7 @@ SystemsOf(f) ==
     [] f = "bounds" -> UNION {SysBoundsOf(A) : A \in {A22, A23, A23b}}
     [] f = "kb" -> SysKBOf(A23, Vec(3, 0), Vec(3, 4), KVariants(2))
                    \cup (IF Tier = "quick" THEN {} ELSE SysKBOf(A22, Vec(2, 2), Vec(2, 8), KVariants(2)) \cup SysKBOf(A22, Vec(2, 0), Vec(2, 4), KVariants(2)))
-    [] f = "kb3" -> SysKBOf(A33, Vec(3, 0), Vec(3, 4), KVariants(3)) \cup SysKBOf(A34, Vec(4, 0), Vec(4, 4), KVariants(3))
+    [] f = "kb3" -> SysKBOf(A33, Vec(3, 0), Vec(3, 4), {k \in KVariants(3) : k[3] = 1})   \* magnitude guard (32-bit Gram determinants)
     [] f = "unb" -> {DefaultB(A) : A \in {A22, A23, A33, A32, A21, A12}} \cup UNION {SysUnbOf(A) : A \in {A22, A23}}
                     \cup SysKBOf(A22, Vec(2, 0), Vec(2, INF), KVariants(2))
     [] f = "over" -> UNION {SysBoundsOf(A) : A \in {A32, A21, A31}}
@@ -35,7 +35,7 @@ Weights(d) == IF d = 1 THEN {<<1>>, <<2>>}
 Init == pc = "init" /\ key = "" /\ out = <<>>
 Level1 == pc = "init" /\ \E f \in Families : key' = f /\ pc' = "fam" /\ out' = out
 Level2 == /\ pc = "fam"
-          /\ \E s \in SystemsOf(key) : \E w \in Weights(Len(s.A)) :
+          /\ \E s \in SystemsOf(key) : \E w \in (IF key = "kb3" THEN {Vec(Len(s.A), 1)} ELSE Weights(Len(s.A))) :    \* kb3: unit weights only (32-bit guard)
                out' = [fam |-> key, sys |-> s, w |-> w]
           /\ pc' = "sys" /\ key' = key
 Level3 == /\ pc = "sys"
